@@ -189,6 +189,99 @@ theorem allOK_sound {info : Info} {batch : List Nat} {rounds : List Round} {R : 
     (h : sendBatch info batch rounds = .ok R) (hok : R.allOK = true) : ∀ s ∈ R.res, s.err = none :=
   (allOK_iff h).mp hok
 
+/-! ### A call whose own context is done while its region cannot be located
+
+`rd.locate c = .error (.ownCtx c)` is what `findClients` reports for call `c` when the wait for
+`c`'s region ended because `c`'s own context is done while the batch context is alive. -/
+
+/-- **Such a call is failed alone, with its own-context error, and is neither queued nor retried.**
+First round of a valid batch: whatever region location returns for the other calls (a client, the
+same kind of failure, or another error that ends the whole batch), whatever they are answered and
+wherever the batch is cancelled, slot `i` ends as exactly `⟨nil, ownCtxErr⟩`, `allOK` is false and
+the call is not handed to any region client in any round. -/
+theorem own_ctx_located_alone {info : Info} {batch : List Nat} {rd : Round} {rest : List Round}
+    {R : Result} (hv : ValidBatch info batch) (h : sendBatch info batch (rd :: rest) = .ok R)
+    (i : Nat) (hi : i < batch.length) (hown : rd.locate batch[i] = .error (.ownCtx batch[i])) :
+    R.res[i]'(by rw [sendBatch_length h]; exact hi) = ⟨none, some (.ownCtx batch[i])⟩ ∧
+    R.allOK = false ∧ ∀ r, ¬ Sent R.events r batch[i] := by
+  have hne : batch ≠ [] := by intro h0; subst h0; cases hi
+  have hlen := sendBatch_length h
+  have hg := ownGone_of_locate hown
+  have hslot : R.res[i]'(by rw [hlen]; exact hi) = ⟨none, some (.ownCtx batch[i])⟩ := by
+    have h' := h
+    rw [sendBatch_valid hne hv] at h'
+    have := loop_ownGone_slot h' (fun c hc => hc) (st0_length info batch) (List.getElem_mem hi) hg
+    rwa [getSlot_eq_getElem hv.1 hlen i hi] at this
+  refine ⟨hslot, ?_, ?_⟩
+  · cases hok : R.allOK
+    · rfl
+    · have := allOK_sound h hok _ (List.getElem_mem (by rw [hlen]; exact hi))
+      rw [hslot] at this; cases this
+  · intro r
+    induction r with
+    | zero =>
+      intro hs
+      have := sent_located h hs (rd := rd) rfl
+      rw [ownGone_not_locOk hg] at this; cases this
+    | succ r ih => exact fun hs => ih (sent_pred h hs)
+
+/-- … in every retry round, too: a call is handed to a region client in round `r` only if region
+location found a client for it in round `r` — a call whose location failed (its own context, or
+anything else) is not queued in that round, hence (`only_retryable_resent`, C12) in no later one. -/
+theorem queued_only_if_located {info : Info} {batch : List Nat} {rounds : List Round} {R : Result}
+    (h : sendBatch info batch rounds = .ok R) {r c : Nat} {rd : Round}
+    (hs : Sent R.events r c) (hrd : rounds[r]? = some rd) : ∃ k, rd.locate c = .ok k := by
+  have := sent_located h hs hrd
+  simp only [locOk] at this
+  split at this
+  · rename_i k hk; exact ⟨k, hk⟩
+  · cases this
+
+/-- **The other calls of the batch are unaffected by it.** In any pass through the retry loop (any
+round, any state) in which every call either is located or is given up on because of its own
+context: the pass is the pass over the remaining calls only (`liveCalls` — same grouping, same
+waits, same retries, same back-off) from the state in which the calls failed alone carry their
+own-context errors (`afterLocate`: `allOK` cleared, `unretryableErrorSeen` set). -/
+theorem own_ctx_others_unaffected {b0 : List Nat} {rd : Round} {rest : List Round} {r : Nat}
+    {batch : List Nat} {st : St}
+    (hloc : ∀ c ∈ batch, locOk rd c = true ∨ rd.locate c = .error (.ownCtx c)) :
+    loop b0 (rd :: rest) r batch st =
+      loop b0 (rd :: rest) r (liveCalls rd batch) (afterLocate b0 rd batch st) := by
+  apply loop_skip_ownGone
+  rw [List.any_eq_false]
+  intro c hc
+  rcases hloc c hc with h1 | h1
+  · simp [h1]
+  · simp [ownGone_of_locate h1]
+
+/-- … and in the first round the `QueueBatch` calls are exactly the groups of the remaining calls. -/
+theorem own_ctx_round0_queue {info : Info} {batch : List Nat} {rd : Round} {rest : List Round}
+    {R : Result} (hne : batch ≠ []) (hv : ValidBatch info batch)
+    (hloc : ∀ c ∈ batch, locOk rd c = true ∨ rd.locate c = .error (.ownCtx c))
+    (h : sendBatch info batch (rd :: rest) = .ok R) :
+    queuedAt R.events 0 = groups rd (liveCalls rd batch) ∧
+    ∀ c, c ∈ liveCalls rd batch ↔ c ∈ batch ∧ rd.locate c ≠ .error (.ownCtx c) := by
+  rw [sendBatch_valid hne hv] at h
+  obtain ⟨new, hev, _, _, _, _, _, _, h7⟩ := loop_events h (fun c hc => hc) (st0_length info batch)
+  have hev' : R.events = new := by simpa [st0] using hev
+  have hany : batch.any (fun c => !locOk rd c && !ownGone rd c) = false := by
+    rw [List.any_eq_false]
+    intro c hc
+    rcases hloc c hc with h1 | h1
+    · simp [h1]
+    · simp [ownGone_of_locate h1]
+  refine ⟨by rw [hev']; exact h7 rd rest rfl hany, fun c => ?_⟩
+  rw [mem_liveCalls]
+  constructor
+  · rintro ⟨hc, hg⟩
+    refine ⟨hc, fun hl => ?_⟩
+    rw [ownGone_of_locate hl] at hg; cases hg
+  · rintro ⟨hc, hn⟩
+    refine ⟨hc, ?_⟩
+    cases hg : ownGone rd c
+    · rfl
+    · exact absurd (ownGone_locate hg) hn
+
 /-! ### Regression witness (the defect repaired by commit 862de01)
 
 One call, one region client; the batch context is seen done by the select that waits for the call
@@ -221,6 +314,36 @@ example : ValidBatch exInfo [0, 1] := by
   intro c _; exact ⟨rfl, rfl⟩
 
 example : Sent [Event.queue 0 1 [1], Event.queue 0 0 [0]] 0 0 := ⟨0, [0], by simp, by simp⟩
+
+/-- three calls; call 1's own context is done and its region cannot be located in round 0: it is
+failed alone (not queued, not retried), call 0 succeeds, call 2 gets NotServingRegion, is retried
+alone and succeeds; `allOK = false` because of call 1 only -/
+def ownRound0 : Round :=
+  ⟨fun c => if c = 1 then .error (.ownCtx 1) else .ok 0, fun c => if c = 0 then .ok 11 else .fail .nsre 12, [], .none⟩
+def ownRound1 : Round := ⟨fun _ => .ok 0, fun _ => .ok 13, [], .none⟩
+
+example : sendBatch exInfo [0, 1, 2] [ownRound0, ownRound1]
+    = .ok ⟨[⟨some 11, none⟩, ⟨none, some (.ownCtx 1)⟩, ⟨some 13, none⟩], false,
+           [.queue 0 0 [0, 2], .queue 1 0 [2]], false⟩ := by decide
+
+example : ownRound0.locate [0, 1, 2][1] = .error (.ownCtx [0, 1, 2][1]) := rfl
+
+example : ∀ c ∈ [0, 1, 2], locOk ownRound0 c = true ∨ ownRound0.locate c = .error (.ownCtx c) := by
+  intro c hc
+  simp only [List.mem_cons, List.not_mem_nil, or_false] at hc
+  rcases hc with rfl | rfl | rfl <;> simp [locOk, ownRound0]
+
+/-- … in a retry round: call 1 is retried, its own context is done by then and its region is not
+available: it ends with its own-context error instead of waiting; call 0 keeps its success -/
+example : sendBatch exInfo [0, 1]
+    [exRound0, ⟨fun c => if c = 1 then .error (.ownCtx 1) else .ok 0, fun _ => .silent, [], .none⟩]
+    = .ok ⟨[⟨some 11, none⟩, ⟨none, some (.ownCtx 1)⟩], false,
+           [.queue 0 1 [1], .queue 0 0 [0]], false⟩ := by decide
+
+/-- … next to a call whose location fails for another reason: the batch ends, both errors reported -/
+example : sendBatch exInfo [0, 1]
+    [⟨fun c => if c = 1 then .error (.ownCtx 1) else .error .closed, fun _ => .silent, [], .none⟩]
+    = .ok ⟨[⟨none, some .closed⟩, ⟨none, some (.ownCtx 1)⟩], false, [], false⟩ := by decide
 
 /-- a run with a retry after back-off that ends `allOK = true`, not interrupted -/
 example : sendBatch exInfo [0]
